@@ -34,7 +34,7 @@ FreqInstances(Ps, Ks, Ms) ==
 FlatInstances(Ps, Us) ==
   {Inst(P, U, F, U, [i \in 1..U |-> 1], TRUE) : P \in Ps, U \in Us, F \in FSet}
 
-GridQuick == FreqInstances(1..5, 1..4, 1..4) \cup FreqInstances({6}, 1..3, 1..4)
+GridQuick == FreqInstances(1..4, 1..4, 1..4) \cup FreqInstances({5, 6}, 1..3, 1..4)
              \cup FlatInstances(1..4, {2, 3, 4, 6, 8, 9, 12}) \cup FlatInstances({5, 6}, {2, 3, 4, 6})
 GridThorough == FreqInstances(1..6, 1..4, 1..4) \cup FreqInstances({7, 8}, 1..3, 1..4)
                 \cup FreqInstances(1..4, {5}, {1, 2, 4})
